@@ -708,10 +708,12 @@ class Runner:
                     last = nxt
         self.res['product_states'] += product_states
         self.res['states'] += len(self.treekeys)
+        self.res['sample_history'] = {'history': list(last.path), 'tree_entries_at_end': len(last.tree),
+                                      'log_lines_at_end': len(norm_log(last.log) or ())}
         # snapshot/restore faithfulness: replay the path of the last discovered state from scratch, no restores
         if last.path:
             self.res['replays'] += 1
-            sub = Runner(w, self.tags, self.skip, {k: ([] if k == 'viol' else 0) for k in self.res})
+            sub = Runner(w, self.tags, self.skip, {k: ([] if k == 'viol' else 0) for k in self.res if k != 'sample_history'})
             end = sub.run_seq(init_tree, last.path)
             w.set_version(end.v)
             k2 = (tree_key(end.tree), norm_log(end.log), end.v, stale_bits(w, self.sel, end.tree))
@@ -905,7 +907,7 @@ COUNTERS = ('transitions', 'states', 'product_states', 'traces', 'tree_compares'
 
 def run_job(job):
     res = {k: 0 for k in COUNTERS}
-    res.update({'viol': [], 'internal': None, 'id': job['id'], 'family': job['family'], 'wall': 0.0})
+    res.update({'viol': [], 'internal': None, 'id': job['id'], 'family': job['family'], 'wall': 0.0, 'sample_history': None})
     t0 = time.time()
     root = os.path.join(scratch_root(), 'c11.%d' % os.getpid(), 'w')
     w = World(job, root)
@@ -1049,12 +1051,20 @@ def job_cost(j):
 
 
 # ------------------------------------------------------------------------------------------------------------
+def replay_job(d):
+    job = dict(d['job'])
+    hist = d.get('history') or ['I']
+    if d.get('strace'):
+        hist = []
+    job['runs'] = [run_spec(d.get('tags'), d.get('skip'), ('seq', list(hist)), strace=bool(d.get('strace')))]
+    job['id'] = 'replay-' + str(job['id'])
+    return job
+
+
 def replay(ck):
     d = json.load(open(ck.args.replay))
-    job = d['job']
-    job = dict(job)
-    hist = d.get('history') or ['I']
-    job['runs'] = [run_spec(d.get('tags'), d.get('skip'), ('seq', list(hist)), strace=bool(d.get('strace')))]
+    job = replay_job(d)
+    hist = job['runs'][0]['hist'][1]
     from verif import mesonproc as mp
     mp.preimport()
     probe_sandbox()
@@ -1111,11 +1121,20 @@ def main():
         if nr in rule_sets and j['family'] in ('S', 'P', 'T'):
             rule_sets[nr].add(tuple(r[0] for r in j['rules']))
         for key, text, rep in res['viol']:
+            is_new = key not in keys_seen
             keys_seen.add(key)
-            ck.violation(key, '%s [%s]: %s' % (j['id'], ' + '.join('%s/%s/%s' % tuple(r) for r in j['rules']), text), rep)
+            fresh = ck.violation(key, '%s [%s]: %s' % (j['id'], ' + '.join('%s/%s/%s' % tuple(r) for r in j['rules']), text), rep)
+            if fresh and is_new:
+                # a verdict must be reproducible: re-execute the recorded history from scratch before trusting it
+                again = run_job(replay_job(rep))
+                if again['internal'] or key not in [v[0] for v in again['viol']]:
+                    ck.internal('violation %s of %s did not reproduce when its history was replayed from scratch (%s)'
+                                % (key, j['id'], again['internal'] or [v[0] for v in again['viol']]))
         if j['family'] in ('H', 'F') and res['transitions'] > 20:
             ck.sample({'job': j['id'], 'rules': j['rules'], 'umask': j['umask'], 'prefix': M.PREFIXES[j['prefix']], 'destdir': j['destdir'],
-                       'transitions': res['transitions'], 'tree_states': res['states'], 'product_states': res['product_states']}, cap=6)
+                       'mechanism': j['mech'], 'initial_tree': j['init'], 'tags': j['runs'][0]['tags'], 'skip_subprojects': j['runs'][0]['skip'],
+                       'transitions': res['transitions'], 'tree_states': res['states'], 'product_states': res['product_states'],
+                       'last_discovered_state': res['sample_history'] or {'history': j['runs'][0]['hist'][1]}}, cap=6)
     if ck.args.only:
         print('debug: jobs=%d sum(job wall)=%.1fs max=%.1fs elapsed=%.1fs' % (len(jobs), sum(r['wall'] for r in results.values()),
               max(r['wall'] for r in results.values()), time.time() - ck.t0), {k: v for k, v in tot.items() if v})
@@ -1123,13 +1142,13 @@ def main():
         ck.internal('%d jobs failed in the harness, first: %s' % (len(internal), internal[0]))
     for name, f in sorted(fam.items()):
         ck.part('family_' + name, **f)
-    full = not ck.args.only
+    full = not ck.args.only and ck.n_viol == 0      # anti-vacuity applies to clean runs; a verdict is never turned into exit 2
     ck.require(not full or tot['tree_compares'] > 100 and tot['log_checks'] > 100, 'too few install steps compared')
     ck.require(not full or tot['reversal_checks'] > 20 and tot['idempotence_checks'] > 20 and tot['dry_runs'] > 20, 'reversal / idempotence / dry-run never exercised')
     ck.require(not full or tot['only_changed_preserved'] > 5, '--only-changed never preserved a file')
     ck.require(not full or tot['built'] > 5, 'no built targets installed')
     ck.require(not full or tot['plan_entries'] > 50, 'install plan never compared')
-    if ck.thorough and not ck.args.only:
+    if ck.thorough and full:
         ck.require(tot['strace_runs'] > 10 and tot['strace_mutations'] > 100, 'strace slice did not observe mutations')
     ck.assume('the reference install model (lib/verif/c11model.py) is my transcription of Installing.md, the install_* reference pages, '
               'Builtin-options.md (install_umask, directory defaults) and IDE-integration.md (install plan)')
